@@ -208,6 +208,7 @@ class Property:
     quick_cases = 300
     thorough_cases = 20000
     case_timeout_s = 20
+    pool_workers = None             # None: min(16, cpus); 1: run the implementation serially
     search_budget = {"quick": 400, "thorough": 5000}
     rule = ""
 
@@ -290,7 +291,11 @@ def run_impl_safe(prop, case, tmo=None):
 def pmap_impl(prop, cases, workers=None):
     global _PROP
     _PROP = prop
-    workers = workers or min(16, os.cpu_count() or 4)
+    workers = workers or prop.pool_workers or min(16, os.cpu_count() or 4)
+    try:
+        import happysimulator  # noqa: F401  (import once, before forking, so workers do not each pay for it)
+    except Exception:
+        pass
     if len(cases) < 32 or workers <= 1 or os.environ.get("HV_SERIAL"):
         return [run_impl_safe(prop, c) for c in cases]
     ctx = mp.get_context("fork")
